@@ -188,3 +188,142 @@ class SSLObject:
 class SSLContext:
     def wrap_bio(self, incoming, outgoing, server_side=False, server_hostname=None, session=None):
         return SSLObject()
+
+
+class Future:
+    """asyncio.Future as far as the flow-control code uses it.  `pending` = not done.  A future registered in a
+    FutureDeque keeps that collection's count of pending members up to date (ghost bookkeeping)."""
+
+    def __init__(self):
+        self.pending = True
+        self.owner = None
+        self.exception_set = False
+
+    def done(self):
+        return not self.pending
+
+    def cancelled(self):
+        return nondet_bool() if not self.pending else False
+
+    def set_result(self, value):
+        require(self.pending, "set_result-on-a-pending-future (InvalidStateError otherwise)")
+        self.pending = False
+        if self.owner is not None:
+            self.owner.pending = self.owner.pending - 1
+
+    def set_exception(self, exc):
+        require(self.pending, "set_exception-on-a-pending-future (InvalidStateError otherwise)")
+        self.pending = False
+        self.exception_set = True
+        if self.owner is not None:
+            self.owner.pending = self.owner.pending - 1
+
+    def add_done_callback(self, callback):
+        return None
+
+    def __model_await__(self):
+        """Suspends until the future is done.  While suspended other tasks and protocol callbacks run (rely of the
+        function under verification); cancelling the awaiting task cancels the future.  In both cases the done-callback
+        registered by the flow control removes the future from its collection."""
+        if self.pending:
+            try:
+                suspend_point(self)
+            except asyncio.CancelledError:
+                if self.pending:
+                    self.pending = False
+                    if self.owner is not None:
+                        self.owner.pending = self.owner.pending - 1
+                if self.owner is not None:
+                    self.owner.n = self.owner.n - 1
+                raise
+            assume(not self.pending)  # resumed normally only once the future has been completed
+        if self.owner is not None:
+            self.owner.n = self.owner.n - 1
+        if self.exception_set:
+            raise_any(Exception)
+        return None
+
+
+class FutureDeque:
+    """deque of futures (drain waiters): n members, `pending` of them not done; `rest` (ghost) = pending members not yet
+    visited by the iteration in progress."""
+
+    def __init__(self):
+        self.n = 0
+        self.pending = 0
+        self.rest = 0
+
+    def append(self, fut):
+        fut.owner = self
+        self.n = self.n + 1
+        if fut.pending:
+            self.pending = self.pending + 1
+
+    def remove(self, fut):
+        self.n = self.n - 1
+
+    def __model_len__(self):
+        return self.n
+
+    def __model_iter_start__(self):
+        self.rest = self.pending
+        return None
+
+    def __model_item__(self, i):
+        f = Future()
+        f.owner = self
+        f.pending = nondet_bool()
+        assume(implies(f.pending, self.rest >= 1))
+        assume(implies(self.rest == self.n - i, f.pending))
+        if f.pending:
+            self.rest = self.rest - 1
+        return f
+
+
+class EventLoop:
+    def create_future(self):
+        return Future()
+
+    def call_soon(self, callback, *args):
+        return None
+
+
+def nondet_flag():
+    return nondet_bool()
+
+
+class AsyncioTransport:
+    """asyncio.Transport (selector socket transport) as the adapter uses it.  ghost.TBUF = bytes handed to the transport
+    in order; ghost.drained_since_write = a drain() has returned since the last write."""
+
+    def __init__(self):
+        self.limits_zero = False
+        self.closing = False
+
+    def get_extra_info(self, name, default=None):
+        return nondet_obj()
+
+    def set_write_buffer_limits(self, high=None, low=None):
+        self.limits_zero = (high == 0)
+
+    def write(self, data):
+        ghost.TBUF = ghost.TBUF + bytes(data)
+        ghost.drained_since_write = False
+
+    def writelines(self, list_of_data):
+        ghost.TBUF = ghost.TBUF + flat(seq_of(list_of_data))
+        ghost.drained_since_write = False
+
+    def is_closing(self):
+        return self.closing
+
+    def close(self):
+        self.closing = True
+
+    def can_write_eof(self):
+        return nondet_bool()
+
+    def write_eof(self):
+        if nondet_bool():
+            raise OSError
+        return None
